@@ -121,7 +121,7 @@ def main(argv=None):
                 total_budget = 900 + budget * (1 + len(hs) // max(1, K.JOBS))
                 log("[%s] kani: %d harnesses on %s (per-harness budget %ds)" % (pid, len(hs), unit.crate, budget))
                 results, shown, secs, out = K.run_kani(scratch.tree, unit.crate, [h.name for h in hs], total_budget, budget,
-                                                       features=unit.features, env=unit.env)
+                                                       features=unit.features, env=unit.env, cbmc_args=unit.cbmc_args)
                 cmds.append(shown)
                 for h in hs:
                     r = results[h.name]
@@ -159,7 +159,15 @@ def main(argv=None):
                     continue
                 tmpl = os.path.join(VERIF, vu.tmpl)
                 trusted_paths.append(tmpl)
-                text, extracted = V.expand_template(scratch, tmpl)
+                try:
+                    text, extracted = V.expand_template(scratch, tmpl)
+                except Undecided as e:
+                    # this unit cannot be assembled from the changed text (lost anchor / rewrite no longer matching): the
+                    # unit is undecided; the other units of the property are still run and may decide
+                    undecided.append("verus %s: %s" % (vu.name, e))
+                    verus_reports.append(dict(unit=vu.name, status="not-assembled", verified=0, errors=0, smt_s=None, wall_s=0.0, obligation=vu.obligation,
+                                              functions=vu.fns, extracted=[], file="", backend="verus 0.2026.09.13 / z3", failures=[], failed_functions=[]))
+                    continue
                 outp = os.path.join(EVIDENCE, "extracted", "%s_%s.rs" % (pid, vu.name))
                 os.makedirs(os.path.dirname(outp), exist_ok=True)
                 open(outp, "w").write(text)
